@@ -38,7 +38,7 @@ type W struct {
 	Aborts     bool  `json:"aborts"` // try a handler abort before every operation
 }
 
-var codes = []int{200, 201, 202, 204, 301, 302, 304, 400, 404, 418, 500, 503}
+var codes = []int{200, 201, 202, 203, 204, 205, 226, 301, 302, 304, 307, 308, 400, 401, 403, 404, 409, 418, 422, 429, 451, 500, 502, 503}
 
 func genOp(r *verifsim.Rng, n int) ROp {
 	k := verifsim.Pick(r, []string{"status", "status", "header", "header", "cookie", "write", "write", "json", "html", "redirect", "nocontent", "writeheader", "success", "error"})
@@ -48,12 +48,23 @@ func genOp(r *verifsim.Rng, n int) ROp {
 		op.C = verifsim.Pick(r, codes)
 	case "header":
 		op.A = fmt.Sprintf("X-H%d=v%d", r.Intn(3), n)
+		switch r.Intn(8) {
+		case 0: // a name that needs canonicalisation
+			op.A = fmt.Sprintf("x-lower-%d=v%d", r.Intn(2), n)
+		case 1: // a header the body-producing calls set themselves
+			op.A = fmt.Sprintf("Content-Type=text/x-custom%d", n)
+		case 2:
+			op.A = fmt.Sprintf("Cache-Control=max-age=%d", n)
+		}
 	case "cookie":
 		op.A = fmt.Sprintf("c%d=v%d", r.Intn(2), n)
 	case "write":
 		op.A = fmt.Sprintf("w%d.", n)
-		if r.Intn(10) == 0 {
+		switch r.Intn(20) {
+		case 0, 1:
 			op.A = ""
+		case 2: // a large write (buffering thresholds)
+			op.A = fmt.Sprintf("big%d:", n) + strings.Repeat("x", verifsim.Pick(r, []int{512, 4096, 5000, 65536, 70000}))
 		}
 	case "json":
 		op.A = fmt.Sprintf("j%d", n)
@@ -93,8 +104,19 @@ func gen(r *verifsim.Rng, tier string) (any, hx.Sched) {
 	w := &W{}
 	w.Ops = genOps(r, 8, 0)
 	nm := verifsim.Pick(r, []int{0, 0, 0, 1, 2, 3, 5})
+	many := r.Intn(25) == 0
+	if many {
+		// sorting algorithms switch strategy above a dozen elements: a long
+		// stack with many ties
+		nm = 13 + r.Intn(8)
+	}
 	for i := 0; i < nm; i++ {
 		m := MW{Prio: verifsim.Pick(r, []int{-1, 0, 0, 1, 5})}
+		if many {
+			m.Prio = verifsim.Pick(r, []int{-2, 0, 0, 0, 3, 3})
+			w.MWs = append(w.MWs, m)
+			continue
+		}
 		if r.Intn(3) == 0 {
 			m.Pre = genOps(r, 2, 100+10*i)
 		}
